@@ -119,7 +119,17 @@ func (s *fstate) with(fs ...*Term) *fstate {
 func (s *fstate) kill(root types.Object, path []string) *fstate {
 	var n *fstate
 	for k, f := range s.facts {
-		if mentions(f, root, path) {
+		hit := mentions(f, root, path)
+		if hit && f.S == "def" && len(path) > 0 && len(f.A) >= 2 && f.A[0].K == "var" && f.A[0].Obj == root {
+			// a field store through v does not change where the pointer v came from
+			hit = false
+			for _, a := range f.A[1:] {
+				if mentions(a, root, path) {
+					hit = true
+				}
+			}
+		}
+		if hit {
 			if n == nil {
 				n = s.clone()
 			}
@@ -326,6 +336,7 @@ type e1func struct {
 	tb       *termBuilder
 	caseTag  map[ast.Expr]ast.Expr // case expression -> switch tag (nil for tagless)
 	caseType map[ast.Expr]ast.Expr // type-switch case type -> switched expression
+	tsClause map[*ast.CaseClause]ast.Expr // type-switch clause -> switched expression
 	closureW map[types.Object][]types.Object
 	sites    []*e1site
 	statusOf map[string]int // call term key -> index of its status result (-1: none)
@@ -339,7 +350,7 @@ func (e *e1) analyse(fi *FuncInfo) *e1func {
 	if f, ok := e.cache[fi]; ok {
 		return f
 	}
-	f := &e1func{eng: e, fi: fi, info: fi.Pkg.TypesInfo, caseTag: map[ast.Expr]ast.Expr{}, caseType: map[ast.Expr]ast.Expr{}, closureW: map[types.Object][]types.Object{}, statusOf: map[string]int{}, errIdx: -1}
+	f := &e1func{eng: e, fi: fi, info: fi.Pkg.TypesInfo, caseTag: map[ast.Expr]ast.Expr{}, caseType: map[ast.Expr]ast.Expr{}, tsClause: map[*ast.CaseClause]ast.Expr{}, closureW: map[types.Object][]types.Object{}, statusOf: map[string]int{}, errIdx: -1}
 	e.cache[fi] = f
 	f.prepare()
 	f.run()
@@ -510,6 +521,7 @@ func (f *e1func) prepare() {
 					}
 				}
 				for _, cl := range s.Body.List {
+					f.tsClause[cl.(*ast.CaseClause)] = x
 					for _, ce := range cl.(*ast.CaseClause).List {
 						f.caseType[ce] = x
 					}
@@ -763,6 +775,7 @@ func (f *e1func) flowBlock(b *cfg.Block, cur []*fstate, sites *[]*e1site) [][]*f
 			cur = dedupStates(cur)
 		}
 	}
+	outs := make([][]*fstate, len(b.Succs))
 	var cond ast.Expr
 	nodes := b.Nodes
 	if len(b.Succs) == 2 && len(nodes) > 0 {
@@ -785,7 +798,6 @@ func (f *e1func) flowBlock(b *cfg.Block, cur []*fstate, sites *[]*e1site) [][]*f
 		}
 		cur = dedupStates(next)
 	}
-	outs := make([][]*fstate, len(b.Succs))
 	if cond != nil {
 		if sites != nil {
 			f.collectSites(cond, cur, sites)
@@ -806,6 +818,37 @@ func (f *e1func) flowBlock(b *cfg.Block, cur []*fstate, sites *[]*e1site) [][]*f
 		}
 		outs[0], outs[1] = dedupStates(outs[0]), dedupStates(outs[1])
 		return outs
+	}
+	// type switch: go/cfg records no node for the case type; single-type clauses still give is/notis facts
+	if len(b.Succs) == 2 && cond == nil && b.Succs[0].Kind == cfg.KindSwitchCaseBody {
+		if cc, ok := b.Succs[0].Stmt.(*ast.CaseClause); ok {
+			if x, isTS := f.tsClause[cc]; isTS && x != nil && len(cc.List) == 1 {
+				xt := f.term(x)
+				var tt *Term
+				if id, ok := cc.List[0].(*ast.Ident); ok && id.Name == "nil" {
+					tt = nil
+				} else {
+					tt = mk("type", typeStr(f.info.TypeOf(cc.List[0])))
+				}
+				line := f.eng.c.P.Fset.Position(cc.Pos()).Line
+				for _, st := range cur {
+					var yes, no *fstate
+					if tt == nil {
+						yes, no = st.with(fact("nil", xt)), st.with(fact("nonnil", xt))
+					} else {
+						yes, no = st.with(fact("is", xt, tt)), st.with(fact("notis", xt, tt))
+					}
+					if yes != nil {
+						outs[0] = append(outs[0], &fstate{facts: yes.facts, from: st, via: fmt.Sprintf("L%d:case", line)})
+					}
+					if no != nil {
+						outs[1] = append(outs[1], &fstate{facts: no.facts, from: st, via: fmt.Sprintf("L%d:not-case", line)})
+					}
+				}
+				outs[0], outs[1] = dedupStates(outs[0]), dedupStates(outs[1])
+				return outs
+			}
+		}
 	}
 	if len(b.Succs) == 0 && sites != nil && len(cur) > 0 {
 		// falling off the end of a function without results
